@@ -194,7 +194,7 @@ func (r *Report) applyFloors() {
 	}
 	for rule, min := range r.MinInstances {
 		if n := r.Count(rule); n < min {
-			r.Bad(rule, "instance-floor", "-", fmt.Sprintf("rule matched %d instances, fewer than the %d confirmed by hand on the pinned tree: anchors drifted or the mechanism was removed", n, min))
+			r.Unk(rule, "instance-floor", "-", fmt.Sprintf("rule matched %d instances, fewer than the %d confirmed by hand on the pinned tree: anchors drifted or the mechanism was removed; the rule no longer sees all the code it was written for, so its silence proves nothing", n, min))
 		}
 	}
 }
